@@ -5,7 +5,9 @@ package main
 //   walked — for each resolve*Ref routine, each walk helper (resolve*Refs) and ResolveRefsIn ("Document"): the child
 //            positions it hands to a resolver or helper, as a token list in source order
 //              ("each", "", path)   a `for … range` statement; path = JSON path from the enclosing loop element (or the
-//                                   routine's value) to the loop element
+//                                   routine's value) to the loop element; ("each", "skipNil", path) when the body
+//                                   begins with `if <element> == nil { continue }`
+//              ("callUnguarded", …) a call on a single pointer field that is not inside `if <it> != nil`
 //              ("call", callee, path) loader.resolve<callee>(doc, <position>, documentPath…)
 //              ("guard", "", [])    a `return` of a new error
 //              ("end", "", [])      end of the loop body
@@ -115,11 +117,12 @@ func lpRefKind(structName string) (string, bool) {
 var lpMaplike = map[string]string{"Paths": "PathItem", "Callback": "PathItem", "Responses": "ResponseRef"}
 
 type lpSym struct {
-	path  []string
-	ty    lpTy
-	isKey bool     // a key variable of `range componentNames(X)`
-	coll  []string // for a key: the path of X
-	collT lpTy
+	nonNil bool // tested `!= nil` in an enclosing if
+	path   []string
+	ty     lpTy
+	isKey  bool     // a key variable of `range componentNames(X)`
+	coll   []string // for a key: the path of X
+	collT  lpTy
 }
 
 type lpTok struct {
@@ -272,7 +275,16 @@ func (w *lpWalker) calls(env map[string]lpSym, base []string, n ast.Node) {
 				w.fail(x.Pos(), "position %v is not below the loop element %v", s.path, base)
 				return true
 			}
-			w.toks = append(w.toks, lpTok{"call", rsShort(se.Sel.Name), rel})
+			// a position that is a single (pointer) field must be tested against nil before the call; loop elements
+			// and the maps handed to the helpers need no test
+			op := "call"
+			if len(rel) > 0 && s.ty.kind == "struct" {
+				id, isID := x.Args[1].(*ast.Ident)
+				if !isID || !env[id.Name].nonNil {
+					op = "callUnguarded"
+				}
+			}
+			w.toks = append(w.toks, lpTok{op, rsShort(se.Sel.Name), rel})
 		}
 		return true
 	})
@@ -311,7 +323,16 @@ func (w *lpWalker) stmt(env map[string]lpSym, base []string, st ast.Stmt) {
 			w.assign(e2, x.Init)
 		}
 		w.calls(e2, base, x.Cond)
-		w.stmts(lpCopyEnv(e2), base, x.Body.List)
+		e4 := lpCopyEnv(e2)
+		if be, ok := x.Cond.(*ast.BinaryExpr); ok && be.Op == token.NEQ && rsText(w.fset, be.Y) == "nil" {
+			if id, ok := be.X.(*ast.Ident); ok {
+				if sy, ok := e4[id.Name]; ok {
+					sy.nonNil = true
+					e4[id.Name] = sy
+				}
+			}
+		}
+		w.stmts(e4, base, x.Body.List)
 		if x.Else != nil {
 			w.stmt(e2, base, x.Else)
 		}
@@ -345,7 +366,24 @@ func (w *lpWalker) stmt(env map[string]lpSym, base []string, st ast.Stmt) {
 			w.fail(x.Pos(), "loop over %v is not below the enclosing loop element %v", elemPath, base)
 			return
 		}
-		w.toks = append(w.toks, lpTok{"each", "", rel})
+		// `if <element> == nil { continue }` as the first statement that is not the binding of the element
+		skip := ""
+		e3 := lpCopyEnv(e2)
+		for _, bs := range x.Body.List {
+			if as, ok := bs.(*ast.AssignStmt); ok {
+				w.assign(e3, as)
+				continue
+			}
+			if is, ok := bs.(*ast.IfStmt); ok && is.Init == nil && is.Else == nil && rsText(w.fset, is.Body) == "{ continue }" {
+				if be, ok := is.Cond.(*ast.BinaryExpr); ok && be.Op == token.EQL && rsText(w.fset, be.Y) == "nil" {
+					if sy, ok := w.eval(e3, be.X); ok && !sy.isKey && reflect.DeepEqual(sy.path, elemPath) {
+						skip = "skipNil"
+					}
+				}
+			}
+			break
+		}
+		w.toks = append(w.toks, lpTok{"each", skip, rel})
 		w.stmts(e2, elemPath, x.Body.List)
 		w.toks = append(w.toks, lpTok{"end", "", nil})
 	case *ast.ReturnStmt:
